@@ -17,6 +17,7 @@ import (
 	"os/exec"
 	"path/filepath"
 	"regexp"
+	"runtime/pprof"
 	"sort"
 	"strconv"
 	"strings"
@@ -75,6 +76,16 @@ func child(id, tier string) {
 	}
 	verif, repo, work := dirs(id)
 	c := core.NewCtx(m, tier, seed(), verif, repo, work)
+	if pf := os.Getenv("VERIF_CPUPROFILE"); pf != "" {
+		if f, err := os.Create(pf); err == nil {
+			pprof.StartCPUProfile(f)
+			go func() {
+				time.Sleep(45 * time.Second)
+				pprof.StopCPUProfile()
+				f.Close()
+			}()
+		}
+	}
 	m.Run(c)
 	c.Finish()
 }
